@@ -621,6 +621,7 @@ func c12CallerEstablishes(w *World, H *ssa.Function, d string, g map[string]stri
 
 // c12OutcomeVerified: at instruction `at`, outcome value O has verified content.
 func c12OutcomeVerified(w *World, fi *FnInfo, at ssa.Instruction, O ssa.Value, depth int) (bool, string) {
+	O = canonPtr(O) // a parameter read back from the variable a closure captured is that parameter
 	od := desc(O)
 	g := fi.GuardsOf(at)
 	if g == nil {
@@ -984,12 +985,41 @@ func c12Consistency(c *Ctx) {
 	for _, fn := range fns {
 		fi := w.Info(fn)
 		c.SeenFn(fn.String())
-		// the outcome allocation
-		var O *ssa.Alloc
+		// the outcome: allocated here, or handed back by a constructor of the module every return of which is a fresh allocation
+		var O ssa.Value
+		var oBlock *ssa.BasicBlock
 		for _, b := range fn.Blocks {
 			for _, in := range b.Instrs {
 				if al, ok := in.(*ssa.Alloc); ok && namedOf(al.Type()) == "ngo.VerificationOutcome" {
-					O = al
+					O, oBlock = al, b
+				}
+			}
+		}
+		if O == nil {
+			for _, b := range fn.Blocks {
+				for _, in := range b.Instrs {
+					call, ok := in.(*ssa.Call)
+					if !ok || namedOf(call.Type()) != "ngo.VerificationOutcome" {
+						continue
+					}
+					if _, isPtr := call.Type().(*types.Pointer); !isPtr {
+						continue
+					}
+					g := staticCallee(call)
+					if g == nil || g.Blocks == nil || !w.IsProductFn(g) {
+						continue
+					}
+					fresh := true
+					for _, gb := range g.Blocks {
+						if r, ok := blockTerm(gb).(*ssa.Return); ok {
+							if al, ok := r.Results[0].(*ssa.Alloc); !ok || !al.Heap {
+								fresh = false
+							}
+						}
+					}
+					if fresh {
+						O, oBlock = call, b
+					}
 				}
 			}
 		}
@@ -1015,7 +1045,7 @@ func c12Consistency(c *Ctx) {
 			if !ok || len(r.Results) != 2 {
 				continue
 			}
-			if !O.Block().Dominates(b) {
+			if !oBlock.Dominates(b) {
 				continue // before the outcome exists (policy selection failures)
 			}
 			k++
